@@ -843,3 +843,131 @@ Proof.
         destruct (map_get (NodeState_payments ns3) x); [discriminate B|].
         destruct (map_get (NodeState_payments ns) x); [discriminate C | reflexivity].
 Qed.
+
+(** * prune_forwarded_payments: the payment-record part of the heartbeat *)
+
+(** [retain] with a closure that decides by [q], never panics and raises a flag when it drops an entry *)
+Lemma retain_st_flag {V} (f : bool -> N -> V -> trap (result (bool * bool))) (q : N -> V -> bool) (m : list (N * V)) :
+  (forall s k v, In (k, v) m -> f s k v = Val (OkR (if q k v then true else s, negb (q k v)))) ->
+  forall s, map_retain_st m f s =
+            Val (OkR (filter (fun e => negb (q (fst e) (snd e))) m, s || existsb (fun e => q (fst e) (snd e)) m)).
+Proof.
+  induction m as [|[k v] r IH]; intros Hf s; cbn [map_retain_st filter existsb fst snd].
+  - rewrite orb_false_r. reflexivity.
+  - rewrite Hf by (left; reflexivity). cbn [bindR].
+    rewrite IH by (intros s' k' v' Hin; apply Hf; right; exact Hin). cbn [bindR].
+    destruct (q k v); cbn [negb orb]; rewrite ?orb_true_r; reflexivity.
+Qed.
+
+Lemma in_map_get {V} (m : list (N * V)) k v : NoDup (map_keys m) -> In (k, v) m -> map_get m k = Some v.
+Proof.
+  induction m as [|[a w] r IH]; intros ND Hin; [destruct Hin|].
+  cbn [map_keys map fst] in ND. inversion ND as [|a' l' Hn ND']; subst.
+  cbn [map_get]. destruct Hin as [E|Hin].
+  - injection E as -> ->. rewrite N.eqb_refl. reflexivity.
+  - destruct (a =? k) eqn:E.
+    + apply N.eqb_eq in E. subst a. exfalso. apply Hn. apply in_map_iff. exists (k, v). split; [reflexivity | exact Hin].
+    + apply IH; assumption.
+Qed.
+
+Lemma filter_key_get {V} (m : list (N * V)) (g : N -> bool) x :
+  map_get (filter (fun e => g (fst e)) m) x = if g x then map_get m x else None.
+Proof.
+  induction m as [|[k v] r IH]; cbn [filter map_get fst].
+  - destruct (g x); reflexivity.
+  - destruct (g k) eqn:K; cbn [map_get]; destruct (k =? x) eqn:E.
+    + apply N.eqb_eq in E. subst x. rewrite K. reflexivity.
+    + exact IH.
+    + apply N.eqb_eq in E. subst x. rewrite IH, K. reflexivity.
+    + exact IH.
+Qed.
+
+Lemma sum_zero_get0 m c : sum_N (map_values m) = 0 -> get0 m c = 0.
+Proof. intros H. pose proof (get0_le_sum m c). lia. Qed.
+
+Lemma existsb_keys {V} (g : N -> bool) (m : list (N * V)) :
+  existsb (fun e => g (fst e)) m = existsb g (map_keys m).
+Proof. unfold map_keys. induction m as [|a r IH]; cbn [map existsb]; [reflexivity | rewrite IH; reflexivity]. Qed.
+
+(** what the heartbeat drops: the model's [prunable] records for which no invoice was issued *)
+Definition pruned (nch : nat) (chs : N -> pchan) (ns : NodeState) (h : N) : bool :=
+  prunable nch (abs_node chs ns) h && is_none_of (map_get (NodeState_issued_invoices ns) h).
+
+Theorem gen_prune_step_is_model (nch : nat) (mf mp : N) prof chs ns :
+  wf_node nch ns ->
+  NoDup (map_keys (NodeState_payments ns)) ->
+  (forall h p, map_get (NodeState_payments ns) h = Some p ->
+               sum_N (map_values (RoutedPayment_incoming p)) <= U64MAX /\
+               sum_N (map_values (RoutedPayment_outgoing p)) <= U64MAX) ->
+  exists ns',
+    gen_NodeState_prune_forwarded_payments prof ns =
+      Val (OkR (ns', existsb (pruned nch chs ns) (map_keys (NodeState_payments ns)))) /\
+    (forall x, known (abs_node chs ns') x = known (abs_node chs ns) x && negb (pruned nch chs ns x)) /\
+    (forall x, pre (abs_node chs ns') x = pre (abs_node chs ns) x && negb (pruned nch chs ns x)) /\
+    (forall x c, led (abs_node chs ns') x c = led (abs_node chs ns) x c) /\
+    (forall x, inv (abs_node chs ns') x = inv (abs_node chs ns) x) /\
+    NodeState_invoices ns' = NodeState_invoices ns /\
+    NodeState_issued_invoices ns' = NodeState_issued_invoices ns /\
+    ((forall x, known (abs_node chs ns) x = true -> prunable nch (abs_node chs ns) x = true ->
+                map_get (NodeState_issued_invoices ns) x = None) ->
+     let s' := fst (pstep nch mf mp (abs_node chs ns) PHeartbeat) in
+     (forall x, known (abs_node chs ns') x = known s' x) /\
+     (forall x, pre (abs_node chs ns') x = pre s' x) /\
+     (forall x c, led (abs_node chs ns') x c = led s' x c) /\
+     (forall x, inv (abs_node chs ns') x = inv s' x)).
+Proof.
+  intros Hwf ND Hfit.
+  set (q := fun (k : N) (_ : RoutedPayment) => pruned nch chs ns k).
+  set (pm := filter (fun e : N * RoutedPayment => negb (q (fst e) (snd e))) (NodeState_payments ns)).
+  assert (Hget : forall x, map_get pm x = if negb (pruned nch chs ns x) then map_get (NodeState_payments ns) x else None).
+  { intros x. subst pm q. cbv beta. apply (filter_key_get (NodeState_payments ns) (fun k => negb (pruned nch chs ns k))). }
+  eexists. split.
+  { unfold gen_NodeState_prune_forwarded_payments. cbv beta zeta.
+    rewrite (retain_st_flag _ q).
+    - cbn [bindR orb]. subst q. cbv beta.
+      rewrite (existsb_keys (pruned nch chs ns) (NodeState_payments ns)).
+      reflexivity.
+    - intros s k v Hin. pose proof (in_map_get _ k v ND Hin) as Hk.
+      destruct (Hfit k v Hk) as [Fi Fo].
+      rewrite (gen_prunable_is_model nch prof chs ns k v Hwf Hk Fi Fo). cbn [bindT].
+      subst q. cbv beta. fold (pruned nch chs ns k).
+      destruct (pruned nch chs ns k); reflexivity. }
+  fold pm.
+  assert (Hknown : forall x, map_contains pm x = map_contains (NodeState_payments ns) x && negb (pruned nch chs ns x)).
+  { intros x. unfold map_contains. rewrite Hget.
+    destruct (pruned nch chs ns x); cbn [negb]; rewrite ?andb_true_r, ?andb_false_r; reflexivity. }
+  assert (Hpre : forall x, match map_get pm x with Some p => is_some_of (RoutedPayment_preimage p) | None => false end =
+                           match map_get (NodeState_payments ns) x with Some p => is_some_of (RoutedPayment_preimage p) | None => false end
+                           && negb (pruned nch chs ns x)).
+  { intros x. rewrite Hget.
+    destruct (pruned nch chs ns x); cbn [negb]; rewrite ?andb_true_r, ?andb_false_r; reflexivity. }
+  assert (Hled : forall x c, match map_get pm x with
+                             | Some p => (get0 (RoutedPayment_incoming p) c, get0 (RoutedPayment_outgoing p) c)
+                             | None => (0, 0) end =
+                             match map_get (NodeState_payments ns) x with
+                             | Some p => (get0 (RoutedPayment_incoming p) c, get0 (RoutedPayment_outgoing p) c)
+                             | None => (0, 0) end).
+  { intros x c. rewrite Hget. destruct (pruned nch chs ns x) eqn:Q; cbn [negb]; [|reflexivity].
+    destruct (map_get (NodeState_payments ns) x) as [p|] eqn:Hp; [|reflexivity].
+    unfold pruned in Q. apply andb_prop in Q. destruct Q as [Q _].
+    destruct (totals_some nch chs ns x p Hwf Hp) as [Ti To].
+    unfold prunable in Q. destruct (inv (abs_node chs ns) x); [discriminate Q|].
+    apply andb_prop in Q. destruct Q as [Qi Qo]. apply N.eqb_eq in Qi. apply N.eqb_eq in Qo.
+    rewrite Ti in Qi. rewrite To in Qo.
+    rewrite (sum_zero_get0 _ c Qi), (sum_zero_get0 _ c Qo). reflexivity. }
+  cbn [abs_node known pre led inv NodeState_payments NodeState_invoices NodeState_issued_invoices].
+  split; [exact Hknown|]. split; [exact Hpre|]. split; [exact Hled|].
+  split; [reflexivity|]. split; [reflexivity|]. split; [reflexivity|].
+  intros Hiss. cbn [pstep fst known pre led inv abs_node].
+  assert (Hq : forall x, map_contains (NodeState_payments ns) x = true ->
+                         pruned nch chs ns x = prunable nch (abs_node chs ns) x).
+  { intros x Hx. unfold pruned. destruct (prunable nch (abs_node chs ns) x) eqn:Q; [|reflexivity].
+    rewrite (Hiss x Hx Q). reflexivity. }
+  split; [|split; [|split]].
+  - intros x. rewrite Hknown. destruct (map_contains (NodeState_payments ns) x) eqn:Hx; [|reflexivity].
+    rewrite (Hq x Hx). reflexivity.
+  - intros x. rewrite Hpre. destruct (map_get (NodeState_payments ns) x) as [p|] eqn:Hp; [|reflexivity].
+    rewrite (Hq x) by (unfold map_contains; rewrite Hp; reflexivity). reflexivity.
+  - exact Hled.
+  - reflexivity.
+Qed.
